@@ -2,6 +2,12 @@ package main
 
 // propRules: which rules decide which property.
 var propRules = map[string][]ruleSpec{
+	"C18": {
+		{"R15", "load path is panic-free", ruleR15},
+		{"R13", "count/dims gate and unsupported types refused (D5, D6)", ruleR13},
+		{"R5", "opset maximum + resolver + unknown operator propagation (M4, M9-M11)", ruleR5},
+		{"R2", "operator getter miss path (M12)", ruleR2},
+	},
 	"C12": {
 		{"R13", "weight decoding tables D1-D3 and gates D4-D6", ruleR13},
 	},
@@ -37,6 +43,23 @@ var contractBase = []string{
 }
 
 var propDocs = map[string]propDoc{
+	"C01": {
+		Explanation: "Rules over the interpreter (model.go, opset.go, registry), anchors found by role: M2 the environment map is made per Run and does not escape; M3 caller inputs take precedence over initializers (store ordering / miss guard); M4 per node the operator is the direct result of getter(node.GetOpType()) in the same iteration, its error returns, the node loop visits every node and no iteration skips the application; M5 Init(n) -> gather(n.GetInput(), env) -> ValidateInputs(gathered) -> Apply(validated) -> bind(n.GetOutput(), results, env), each stage fed by the previous one, every error returned; M6 gather: exactly one append per name, \"\" => nil, present => comma-ok entry, absent => error; M7 bind: rejecting length check, env[names[i]] = results[i] same i, all i; M8 result map is fresh, keys from OutputNames(), values non-nil-checked with an error otherwise; M9 no error result dropped in package gonnx; M13 Model fields written only by the constructor; R2 registry constructors return new values, getter hit/miss paths; R4 node output names flow only into len(); R1 no package-level state written. NOT decided: operator values (C03-C11), equality with an independent evaluator.",
+		Assumptions: []string{"go/types + go/ssa model the program faithfully", "the rules recognise today's factoring by role; if a role has no bearer the obligation is violated (property needs it) or undecided (only the rule's factoring assumption is gone)"},
+	},
+	"C12": {
+		Explanation: "Decoder tables read from the type-checked program (exhaustive for D1-D3): D1 11 data_type cases -> decoder -> Go element type (types.Identical on the basic kind); D2 per decoder: typed field prescribed by ONNX, guarded by len(same field) > 0, narrowing helper out[i] = T(in[i]) for all i, else the raw reader of the same element type applied to RawData; D3 per raw reader: buffer length == compared length == decode width == sizeof(element), one element per byte for the byte-wise reader; D4 a short tail: reader returns a definitely non-nil error, or the count gate exists; D5 every value reaching tensor construction was decoded under an explicitly supported data_type case; D6 tensor construction is dominated (possibly through a helper whose parameters are labelled by backward derivation) by a rejecting equality between the element count of the decoded values and the product of the dims and a rejecting lower bound on every dim. NOT decided: out-of-range values in widened typed fields.",
+		Assumptions: []string{"encoding/binary and bytes.Reader behave as documented", "gorgonia's tensor.New builds exactly the given shape over the given backing when its preconditions hold", "go/types + go/ssa model the program faithfully"},
+		Exhaustive:  true,
+	},
+	"C13": {
+		Explanation: "Rules on the shape validator's SSA/CFG (validator found by role): V1 iterates the declared input shapes; V2 back edges of the input loop only from the initializer-skip edge or the exhausted dimension loop, back edges of the dimension loop only from IsDynamic==true or equality edges, comparison only on the !IsDynamic edge; V3 comma-ok miss => error; V4 rejecting rank equality dominates every read of the received shape; V5 declared[i].Size vs int64(received[i]) at the same i over a full range loop, inequality => error; M1 validator is Run's first call on Run's own parameter, error returned, all other blocks on its nil edge; R3 (E2) no mutation site reachable from the validator writes borrowed or shared storage; V7 IsDynamic <=> dim_value == 0 and Size = dim_value in the shape extractor; V8 InputShapes, InputDimSize and the validator all derive shapes from GetInput().",
+		Assumptions: append([]string{"inputs declared without shape information are outside the property's quantifier"}, contractBase...),
+	},
+	"C18": {
+		Explanation: "R15: L = library functions reachable from the Model constructors and the bytes->protobuf step (call graph). In L every potentially panicking instruction is enumerated (explicit panic, non-comma-ok type assertion, integer division, make with a non-len size, IndexAddr/Index/Slice, field reads through pointers, MapUpdate, dynamic calls, external calls) and discharged by: a dominating guard; range-index loops over a slice of the same length; constant indices into constant-size buffers; non-nil pointer reasoning (allocation, element of a repeated protobuf field, every load-path caller passes non-nil, success result of a callee); contracts (tensor.New by the R13:D6 gate, binary.UintN by the buffer length, reflect.Value.Len by a slice-typed operand, trusted stdlib readers). Generated getters: dereference only under x != nil. R13:D6 count/dims gate. R5: M10 model only on Params() and resolver success with the running maximum of GetVersion() over every import; M11 resolver miss => ErrUnsupportedOpsetVersion; M4 unknown operator error returned, no node skipped; M9 no dropped errors. R2: getter miss wraps ErrUnsupportedOperator. NOT decided: the protobuf decoder itself.",
+		Assumptions: []string{"proto.Unmarshal never panics and never leaves nil elements in repeated message fields", "os.ReadFile, io.ReadAll, zip.File.Open, bytes.Reader do not panic", "gorgonia's tensor.New does not panic when every dim >= 1, the backing is a slice and the product of the dims equals its length", "go/types + go/ssa + call graph model the program faithfully"},
+	},
 	"C02": {
 		Explanation: "Interprocedural origin/effect analysis (E2) over every hand-written library function (generic instances included): each SSA value carries the set of non-fresh origins (Borrowed(Run.inputs), Borrowed(op.inputs), Weights, Proto, Global(g)) x level (container, tensor header, element data) that may reach it; propagation through phi/field cells/containers/closures/calls to a fixpoint; gorgonia calls through a closed contract table. R3: every mutation site (Reshape/T/SetAt/Zero/Memset, arithmetic with WithReuse/UseUnsafe/WithIncr, element stores through Shape()/Data() slices, append/copy/sort/map updates, field stores on borrowed objects) must write storage with an empty origin set at the written level. R1: no package-level variable is stored to or written through outside package initialisers; the library has no goroutines/locks/unsafe. Positive controls (in-place Reshape, store through Shape(), WithReuse, UseUnsafe, mutation through a view, mutation two calls deep, memoising map) are analysed on every run and must be reported. NOT decided: bit-for-bit equality of results (follows from purity plus gorgonia's determinism, which is assumed); outputs that alias inputs or weights (Concat of one input, Constant) are not mutations by Run.",
 		Assumptions: contractBase,
